@@ -265,6 +265,56 @@ def r7_visit(run, F):
                "Expression::%s.%s is given a type before the typer stage (%s): the scoper does not resolve identifiers in it" % (variant, field, bad[:3]))
 
 
+READ_ONLY_METHODS = {"iter", "get", "last", "first", "contains", "contains_key", "len", "is_empty", "keys", "values"}
+STATE_WRITERS = {
+    # field: {function: {mutating methods / "=" for assignment}}  -- confirmed by reading variable_references.rs
+    "variable_stack": {"Analyzer::push_scope": {"push"}, "Analyzer::pop_scope": {"pop"},
+                       "Analyzer::declare_variable": {"last_mut"}, "Analyzer::declare_constant": {"last_mut"}},
+    "pruned_variables": {"Analyzer::prune_at_label": {"entry"}, "Analyzer::use_variable": {"remove"}},
+    "poisoned_variables": {"Analyzer::use_variable": {"insert"}},
+    "unresolved_labels": {"Analyzer::prepare_to_prune_at_goto": {"entry"}, "Analyzer::prune_at_label": {"remove"}},
+}
+
+
+def r8_state_writers(run, F):
+    """Who may write the scoper's state (T5): the scope stack and the goto-pruning tables are only changed by the functions
+    that implement scoping and pruning.  Any other writer (a `retain` on scope exit, a `clear` between functions) changes
+    which declarations a later use can see or which skipped declarations are still remembered."""
+    found = {}
+    where = {}
+    for p, b in F.lib.bodies.items():
+        if "hir" not in b or not F.rel(b["file"]).endswith("scoper/variable_references.rs"):
+            continue
+        fn = p.replace(VR, "").split("::{closure")[0]
+        for n in walk(b["hir"]):
+            fld = meth = None
+            if n.get("k") == "MethodCall":
+                r = hirq.unwrap_trivial(n["recv"])
+                if r.get("k") == "Field" and r.get("name") in STATE_WRITERS and n["name"] not in READ_ONLY_METHODS:
+                    fld, meth = r["name"], n["name"]
+            elif n.get("k") in ("Assign", "AssignOp"):
+                l = hirq.unwrap_trivial(n["lhs"])
+                if l.get("k") == "Field" and l.get("name") in STATE_WRITERS:
+                    fld, meth = l["name"], "="
+            elif n.get("k") == "AddrOf" and n.get("mut"):
+                r = hirq.unwrap_trivial(n.get("e", {}))
+                if r.get("k") == "Field" and r.get("name") in STATE_WRITERS:
+                    fld, meth = r["name"], "&mut"
+            if fld:
+                found.setdefault(fld, {}).setdefault(fn, set()).add(meth)
+                where.setdefault((fld, fn, meth), F.where(b, n))
+    for fld, ref in STATE_WRITERS.items():
+        got = found.get(fld, {})
+        for fn, ms in sorted(got.items()):
+            for m in sorted(ms):
+                run.ob("R8-STATE-WRITERS", "%s|%s|%s" % (fld, fn, m), m in ref.get(fn, set()), where[(fld, fn, m)],
+                       "`%s` is written by %s (%s); reviewed writers: %s" % (fld, fn, m, {k: sorted(v) for k, v in ref.items()}))
+        for fn, ms in ref.items():
+            for m in ms:
+                run.ob("R8-STATE-WRITERS", "%s|%s|%s present" % (fld, fn, m), m in got.get(fn, set()), "src/alpha/scoper/variable_references.rs",
+                       "the reviewed writer %s.%s() in %s is gone" % (fld, m, fn))
+
+
 def check(run):
     F = run.facts("B")
     r1_balance(run, F)
@@ -274,9 +324,10 @@ def check(run):
     r5_lookup(run, F)
     r6_codes(run, F)
     r7_visit(run, F)
+    r8_state_writers(run, F)
     if run.tier == "thorough":
         FA = run.facts("A")
         run.key_prefix = "cfgA:"
-        for fn in (r1_balance, r2_order, r3_passes, r4_pruning, r5_lookup, r6_codes, r7_visit):
+        for fn in (r1_balance, r2_order, r3_passes, r4_pruning, r5_lookup, r6_codes, r7_visit, r8_state_writers):
             fn(run, FA)
         run.key_prefix = ""
